@@ -230,6 +230,10 @@ impl Pair {
                         let lost = self.abort_lost.get(&d).copied().unwrap_or(false);
                         Err(self.declined_by_real_acceptor(m, peer, reason, lost).await)
                     }
+                    // a failed session. Every third one fails the way only the real acceptor can tell: the request was allowed
+                    // and the node's store then fails on the opening message (replica closed under the session) - the task
+                    // result is whatever the REAL `BobState` returns for that
+                    _ if d % 3 == 2 => Err(self.failed_at_init_by_real_acceptor(peer).await),
                     _ if d % 2 == 1 => Err(AcceptError::Close { peer, namespace: Some(ns), error: anyhow::anyhow!("close failed") }),
                     _ => Err(AcceptError::Sync { peer, namespace: Some(ns), error: anyhow::anyhow!("sync failed") }),
                 };
@@ -356,6 +360,30 @@ impl Pair {
             Err(e) => e,
             // (cannot happen: a declined request never ends in success) - keep the synthesised form
             Ok(_) => AcceptError::Abort { peer, namespace: ns, reason },
+        }
+    }
+
+    /// Run the real `BobState` against a dialer that sends `Init`, with an accept callback that allows the request and a store
+    /// actor in which the document is not open (what the session finds when the replica was closed under it): the local
+    /// processing of the opening message fails; returns the acceptor's error.
+    async fn failed_at_init_by_real_acceptor(&self, peer: PublicKey) -> AcceptError {
+        use tokio::io::AsyncWriteExt;
+        let ns = self.ns;
+        let mut store = iroh_docs::store::Store::memory();
+        let _ = store.import_namespace(iroh_docs::Capability::Read(ns));
+        let sync = iroh_docs::actor::SyncHandle::spawn(store, None, "vdrive-closed".to_string());
+        let (bob_io, peer_io) = tokio::io::duplex(1 << 16);
+        let (bob_r, bob_w) = tokio::io::split(bob_io);
+        let (peer_r, mut peer_w) = tokio::io::split(peer_io);
+        let _ = peer_w.write_all(&self.init_frame).await;
+        let mut st = iroh_docs::net::VerifBobState::new(peer);
+        let res = st.run(bob_w, bob_r, sync.clone(), move |_ns, _peer| async move { AcceptOutcome::Allow }).await;
+        drop((peer_r, peer_w));
+        let _ = sync.shutdown().await;
+        match res {
+            Err(e) => e,
+            // (cannot happen: the store refuses the message) - keep the synthesised form
+            Ok(_) => AcceptError::Sync { peer, namespace: Some(ns), error: anyhow::anyhow!("sync failed") },
         }
     }
 
